@@ -34,6 +34,7 @@ type Loaded struct {
 	funcTables map[string][]*ssa.Function
 	globalStructs map[*ssa.Global][]globalField
 	errGlobals map[*ssa.Global]errGlobal
+	newErrGlobals map[*ssa.Global]*ssa.Global // package-level error built in init by errors.New / fmt.Errorf → the global it wraps with %w (or nil)
 	constMaps  map[string]map[string]int64
 }
 
